@@ -9,8 +9,14 @@ env=dict(os.environ,GOFLAGS='-mod=mod',GOPROXY='off',GOSUMDB='off',GOTOOLCHAIN='
 root='/tmp/par'; os.makedirs(root,exist_ok=True)
 jobs=queue.Queue()
 if mode=='seeds':
-    for d in sorted(glob.glob('/verif/seeded/C??-*')):
-        sid=os.path.basename(d); jobs.put((sid,d,sid.split('-')[0],'detect_'))
+    # PARFIRST: file listing seed ids to run first (e.g. the newest round); PARSKIP: file listing ids to leave out
+    first=open(os.environ['PARFIRST']).read().split() if os.environ.get('PARFIRST') else []
+    skip=set(open(os.environ['PARSKIP']).read().split()) if os.environ.get('PARSKIP') else set()
+    ds=sorted(glob.glob('/verif/seeded/C??-*'),key=lambda d:(0 if os.path.basename(d) in first else 1,d))
+    for d in ds:
+        sid=os.path.basename(d)
+        if sid in skip: continue
+        jobs.put((sid,d,sid.split('-')[0],'detect_'))
 else:
     for d in sorted(glob.glob('/verif/seeded/benign/C??-*')):
         sid=os.path.basename(d); jobs.put((sid,d,sid.split('-')[0],'check_'))
